@@ -103,6 +103,12 @@ CLAIMED["C15"] = ("other",
     "Trusted: encoding/binary.Write writes the fixed-size representation in the given order. The table's field names are those of the Go structures (the mapping of specification fields to structure members is part of the oracle).",
     "DESIGN.md §4 C15")
 
+CLAIMED["C03"] = ("other",
+    "interval analysis of narrowing conversions, path walk of dumpCdrFile with a memory model compared with the sizes derived from the extracted encoder layout, error-propagation (edge dominance) rule on the BER marshaller's results",
+    "Decides for all histories and request sizes: no 8/16-bit narrowing conversion into a length field can truncate (a dominating guard bounds the operand, so a record over 65535 octets is rejected, not written); for every combination of the release-identifier tests the header length, initial file length, per-record growth, record length field and CDR count that dumpCdrFile computes equal the sizes of what the encoders write (derived from the extracted layout, not from constants in the checker); the marshaller's error is tested and its bytes are used only on the success edge; payload and length come from the same marshal result. That each payload is a complete BER record is C04's subject.",
+    "Trusted: encoding/binary, bytes.Buffer; extractor limits as in C15. The split threshold's behaviour over histories is not decided.",
+    "DESIGN.md §4 C03")
+
 # id -> reason, for properties not (yet) claimed
 NOT_APPLICABLE = {
 }
